@@ -30,7 +30,7 @@ class Geo:
             V = VERTS[name]
             self.closed = name != 'UnitInterval'
         else:
-            V = [tuple(p) for p in name['poly']]
+            V = [tuple(p) for p in name['poly']]        # ('scribble' only concerns how the real object is built)
             self.closed = bool(name['closed'])
         self.verts = np.array(V, dtype=float)
         seg = np.linalg.norm(np.diff(self.verts, axis=0), axis=1)
